@@ -79,7 +79,7 @@ M = [
   [("                        // invalid escape sequence\n\n                        self.reset(buf);", "                        // invalid escape sequence\n                        #[allow(clippy::empty_loop)]\n                        while payload[0] == 0x02 {}\n                        self.reset(buf);")],
   "an invalid escape sequence starting with 02 makes the decoder spin forever - exercises the hang watchdog"),
  ("M25-streaming-parser-allocates", "src/parser/streaming.rs", ["C06"],
-  [("    pub fn new(input: &'i [u8]) -> Self {\n        Parser {", "    pub fn new(input: &'i [u8]) -> Self {\n        #[cfg(feature = \"alloc\")]\n        if input.len() > 300 {\n            let scratch: alloc::vec::Vec<u8> = input.to_vec();\n            core::mem::drop(scratch);\n        }\n        Parser {")],
+  [("    pub fn new(input: &'i [u8]) -> Self {\n        Parser {", "    pub fn new(input: &'i [u8]) -> Self {\n        #[cfg(feature = \"alloc\")]\n        if input.len() > 300 {\n            let scratch: alloc::vec::Vec<u8> = input.to_vec();\n            core::hint::black_box(&scratch);\n        }\n        Parser {")],
   "the streaming parser makes a heap copy of inputs longer than 300 bytes"),
  ("M26-arraybuf-push-off-by-one", "src/util.rs", ["C18","C16"],
   [("        if self.num_elements == N {\n            Err(OutOfMemory)\n        } else {", "        if self.num_elements + 1 >= N && N > 64 {\n            Err(OutOfMemory)\n        } else {")],
